@@ -41,4 +41,17 @@ PROPS = {
             "hash equality follows from view equality because the hash functions are functions of the view (C06)",
         ],
     },
+    "C18": {
+        "title": "HashTable<ZobristHash,V> is a capacity-bounded FIFO map (data structure against abstract view)",
+        "units": ["hashtable"],
+        "deciding": [r"^HashTable::", r"^lemma_"],
+        "owned": [r"^HashTable::(put|get|clear|new|len)$"],
+        "design_ref": "DESIGN.md §3 C18",
+        "assumptions": [
+            "extraction rule of this unit: the hasher type argument nohash_hasher::BuildNoHashHasher<K> and HashMap::with_hasher(..) are replaced by the default hasher (a single-file Verus run cannot link the nohash_hasher crate); map semantics do not depend on the hasher for u64 keys (vstd: obeys_key_model::<u64>())",
+            "vstd model specifications of std HashMap (insert/get/remove/len/clear) and VecDeque (push_back/pop_front/clear) are trusted",
+            "capacity >= 1 is a precondition of new (the engine uses 10,000,000)",
+            "load_factor (f32 division) is not under contract; HashMapTranspositionTable is a field-for-field delegating wrapper and is not re-verified",
+        ],
+    },
 }
